@@ -11,8 +11,11 @@ mod minimise;
 mod monitors;
 mod ops;
 mod profile;
+mod reads;
 mod rng;
 mod run;
+mod seqmon;
+mod special;
 mod world;
 
 #[global_allocator]
